@@ -101,6 +101,7 @@ func main() {
 		writeLean(*leanDir, facts)
 		extractTables2(pkgs, repo, *leanDir, facts)
 		extractPosUses(pkgs, facts, *leanDir)
+		extractNameSites(pkgs, facts, *leanDir)
 		extractMarshalers(pkgs, facts, *leanDir) // marshalers.go (C03: custom marshallers, float-capable fields)
 	}
 }
